@@ -628,9 +628,11 @@ type ClsRec struct {
 	Bytes hx.B            `json:"bytes"`
 	Type  string          `json:"type"`
 	Cats  map[string]bool `json:"cats"`
+	Oneof map[string]bool `json:"oneof"` // IsOneOf(<the category>) for the same six categories: must agree with Is
 	Accs  []string        `json:"accs"`
 	Play  bool            `json:"playable"`
 	Panic string          `json:"panic"`
+	Warm  bool            `json:"warm"` // replay only: messages of every kind were classified in this process before this one
 }
 
 var smfMetaAcc = []struct {
@@ -664,8 +666,12 @@ func classify(lvl string, b []byte, withString bool, r *ClsRec) {
 		r.Cats = map[string]bool{}
 	}
 	// a panic leaves the record half filled: every field starts from a fixed value so that a replay sees the same record
+	if r.Oneof == nil {
+		r.Oneof = map[string]bool{}
+	}
 	for _, k := range []string{"channel", "syscommon", "realtime", "sysex", "unknown", "meta"} {
 		r.Cats[k] = false
+		r.Oneof[k] = false
 	}
 	r.Type, r.Play = "", false
 	r.Panic = hx.Catch(func() {
@@ -676,7 +682,8 @@ func classify(lvl string, b []byte, withString bool, r *ClsRec) {
 			r.Cats["channel"], r.Cats["syscommon"], r.Cats["realtime"] = m.Is(midi.ChannelMsg), m.Is(midi.SysCommonMsg), m.Is(midi.RealTimeMsg)
 			r.Cats["sysex"], r.Cats["unknown"], r.Cats["meta"] = m.Is(midi.SysExMsg), m.Is(midi.UnknownMsg), m.Is(smf.MetaMsg)
 			r.Play = m.IsPlayable()
-			_ = m.IsOneOf(midi.NoteOnMsg, midi.ChannelMsg)
+			r.Oneof["channel"], r.Oneof["syscommon"], r.Oneof["realtime"] = m.IsOneOf(midi.ChannelMsg), m.IsOneOf(midi.SysCommonMsg), m.IsOneOf(midi.RealTimeMsg)
+			r.Oneof["sysex"], r.Oneof["unknown"], r.Oneof["meta"] = m.IsOneOf(midi.SysExMsg), m.IsOneOf(midi.UnknownMsg), m.IsOneOf(smf.MetaMsg)
 			if withString {
 				_ = m.String()
 			}
@@ -697,7 +704,8 @@ func classify(lvl string, b []byte, withString bool, r *ClsRec) {
 			r.Cats["sysex"], r.Cats["unknown"], r.Cats["meta"] = m.Is(midi.SysExMsg), m.Is(midi.UnknownMsg), m.Is(smf.MetaMsg)
 			r.Play = m.IsPlayable()
 			_ = m.IsMeta()
-			_ = m.IsOneOf(midi.NoteOnMsg, smf.MetaTempoMsg)
+			r.Oneof["channel"], r.Oneof["syscommon"], r.Oneof["realtime"] = m.IsOneOf(midi.ChannelMsg), m.IsOneOf(midi.SysCommonMsg), m.IsOneOf(midi.RealTimeMsg)
+			r.Oneof["sysex"], r.Oneof["unknown"], r.Oneof["meta"] = m.IsOneOf(midi.SysExMsg), m.IsOneOf(midi.UnknownMsg), m.IsOneOf(smf.MetaMsg)
 			if withString {
 				_ = m.String()
 			}
@@ -756,6 +764,9 @@ func (t *Tables) clsOk(r *ClsRec) bool {
 			n++
 			cat = c
 		}
+		if r.Oneof[c] != v { // IsOneOf(category) is Is(category)
+			return false
+		}
 	}
 	if n != 1 {
 		return false
@@ -784,6 +795,10 @@ func cloneCls(r *ClsRec) *ClsRec {
 	c.Cats = map[string]bool{}
 	for k, v := range r.Cats {
 		c.Cats[k] = v
+	}
+	c.Oneof = map[string]bool{}
+	for k, v := range r.Oneof {
+		c.Oneof[k] = v
 	}
 	return &c
 }
@@ -968,6 +983,18 @@ func cmdClsSweep(args []string) {
 	os.WriteFile(*out, bb, 0o644)
 }
 
+// warmUp classifies one message of every kind at both levels, as any program does before it meets the message at hand:
+// the classification of a message must not depend on what was classified before it.
+func warmUp() {
+	var scratch ClsRec
+	for _, b := range [][]byte{midi.NoteOn(1, 60, 100), midi.NoteOff(2, 60), midi.ControlChange(3, 7, 100), midi.Pitchbend(4, 100), midi.AfterTouch(5, 9),
+		midi.PolyAfterTouch(6, 60, 9), midi.ProgramChange(7, 12), midi.SPP(100), midi.MTC(3), midi.SongSelect(4), midi.Tune(), midi.Start(), midi.Activesense(),
+		midi.SysEx([]byte{1, 2, 3}), smf.MetaTempo(120), smf.MetaText("warm"), smf.EOT, {0x40, 0x41}, {}, midi.ControlChange(8, 1, 2)} {
+		classify("midi", b, true, &scratch)
+		classify("smf", b, true, &scratch)
+	}
+}
+
 func cmdRerun(args []string) {
 	fs := flag.NewFlagSet("msg-rerun", flag.ExitOnError)
 	in := fs.String("in", "", "")
@@ -981,6 +1008,7 @@ func cmdRerun(args []string) {
 			Args  []int  `json:"args"`
 			Lvl   string `json:"lvl"`
 			Bytes hx.B   `json:"bytes"`
+			Warm  bool   `json:"warm"`
 			CtxFn string `json:"ctxfn"`
 			CtxA  []int  `json:"ctxargs"`
 		}
@@ -995,7 +1023,11 @@ func cmdRerun(args []string) {
 			}
 		} else {
 			var rec ClsRec
+			if head.Warm {
+				warmUp()
+			}
 			classify(head.Lvl, head.Bytes, true, &rec)
+			rec.Warm = head.Warm
 			w.Put(cloneCls(&rec))
 		}
 	})
